@@ -3,11 +3,408 @@ From Coq Require Import List NArith ZArith Bool Lia ZifyBool ZifyN Arith.
 Import ListNotations.
 Require Import Verif.Lib.Wire Verif.Lib.Text Verif.Lib.PathNorm Verif.Lib.C02PathNorm Verif.Lib.Utf8
                Verif.Lib.Percent Verif.Lib.C07Types Verif.Gen.Facts_C02 Verif.Gen.Facts_C07
-               Verif.Model.C02 Verif.Proofs.C02 Verif.Model.C07.
+               Verif.Model.C02 Verif.Proofs.C02 Verif.Model.C07 Verif.Proofs.C07_rt.
 Close Scope N_scope.
 
+(* ------------------------------------------------------------------ facts *)
 Lemma facts_ok7 :
   url_vroot_mode = UrlTupleCompare /\ c07_name_default = [] /\ c07_root_tuple = [[]] /\
   c07_trail_elt = [] /\ c07_trail_sep = [slash] /\ c07_vtuple_head = [[]] /\
   c07_elements_sep = [slash] /\ c07_script_quoted = true.
 Proof. vm_compute. repeat split; reflexivity. Qed.
+
+Lemma f_mode7 : url_vroot_mode = UrlTupleCompare. Proof. apply facts_ok7. Qed.
+Lemma f_default : c07_name_default = []. Proof. apply facts_ok7. Qed.
+Lemma f_root_tuple : c07_root_tuple = [[]]. Proof. apply facts_ok7. Qed.
+Lemma f_trail_elt : c07_trail_elt = []. Proof. apply facts_ok7. Qed.
+Lemma f_trail_sep : c07_trail_sep = [slash]. Proof. apply facts_ok7. Qed.
+Lemma f_head : c07_vtuple_head = [[]]. Proof. apply facts_ok7. Qed.
+
+(* ------------------------------------------------------------------ trees *)
+Lemma assoc_idx_nth k l : forall i0 i c, assoc_idx k l i0 = Some (i, c) ->
+  exists j, i = i0 + j /\ nth_error l j = Some (k, c).
+Proof.
+  induction l as [|[n x] l IH]; intros i0 i c; simpl; [discriminate|].
+  destruct (text_eqb_spec k n) as [->|Hne].
+  - intros H. injection H as <- <-. exists 0. split; [lia|reflexivity].
+  - intros H. destruct (IH _ _ _ H) as (j & -> & Hj). exists (S j). split; [lia|exact Hj].
+Qed.
+
+Lemma child_spec ob s n : child ob s = Some n ->
+  exists l j, snd ob = Node (Some l) /\ nth_error l j = Some (s, snd n) /\ fst n = fst ob ++ [j].
+Proof.
+  unfold child, getitem. destruct (snd ob) as [[l|]]; [|discriminate].
+  destruct (assoc_idx s l 0) as [[i c]|] eqn:E; [|discriminate].
+  intros H. injection H as <-. destruct (assoc_idx_nth _ _ _ _ _ E) as (j & -> & Hj).
+  exists l, j. simpl. auto.
+Qed.
+
+Lemma node_at_app : forall p r q, node_at r (p ++ q) = match node_at r p with Some x => node_at x q | None => None end.
+Proof.
+  induction p as [|i p IH]; intros r q; simpl; [reflexivity|].
+  destruct r as [[l|]]; [|reflexivity]. destruct (nth_error l i) as [[n c]|]; [apply IH|reflexivity].
+Qed.
+
+Lemma names_at_app : forall p r q,
+  names_at r (p ++ q) = match names_at r p, node_at r p with
+                        | Some a, Some x => option_map (app a) (names_at x q)
+                        | _, _ => None
+                        end.
+Proof.
+  induction p as [|i p IH]; intros r q; simpl.
+  - destruct (names_at r q); reflexivity.
+  - destruct r as [[l|]]; [|reflexivity]. destruct (nth_error l i) as [[n c]|]; [|reflexivity].
+    rewrite IH. destruct (names_at c p); simpl; [|reflexivity].
+    destruct (node_at c p); [|reflexivity]. destruct (names_at _ q); reflexivity.
+Qed.
+
+Lemma names_node : forall p r ns, names_at r p = Some ns -> exists x, node_at r p = Some x.
+Proof.
+  induction p as [|i p IH]; intros r ns; simpl; [eauto|].
+  destruct r as [[l|]]; [|discriminate]. destruct (nth_error l i) as [[n c]|]; [|discriminate].
+  destruct (names_at c p) eqn:E; [|discriminate]. intros _. eapply IH. eassumption.
+Qed.
+
+Lemma names_length : forall p r ns, names_at r p = Some ns -> length ns = length p.
+Proof.
+  induction p as [|i p IH]; intros r ns; simpl; [intros H; injection H as <-; reflexivity|].
+  destruct r as [[l|]]; [|discriminate]. destruct (nth_error l i) as [[n c]|]; [|discriminate].
+  destruct (names_at c p) eqn:E; [|discriminate]. intros H. injection H as <-. simpl. f_equal. eapply IH. eassumption.
+Qed.
+
+(* item lookup moves through the tree: the node reached is the node at the
+   position reached, and its lineage names are the segments looked up *)
+Lemma descend_tree root : forall segs ob n ns,
+  node_at root (fst ob) = Some (snd ob) -> names_at root (fst ob) = Some ns ->
+  descend ob segs = Some n ->
+  node_at root (fst n) = Some (snd n) /\ names_at root (fst n) = Some (ns ++ segs).
+Proof.
+  induction segs as [|s segs IH]; intros ob n ns Hn Hns; simpl.
+  - intros H. injection H as <-. rewrite app_nil_r. auto.
+  - destruct (child ob s) as [m|] eqn:Hc; [|discriminate]. intros Hd.
+    destruct (child_spec _ _ _ Hc) as (l & j & Hl & Hj & Hp).
+    assert (H1 : node_at root (fst m) = Some (snd m)).
+    { rewrite Hp, node_at_app, Hn, Hl. simpl. rewrite Hj. reflexivity. }
+    assert (H2 : names_at root (fst m) = Some (ns ++ [s])).
+    { rewrite Hp, names_at_app, Hns, Hn, Hl. simpl. rewrite Hj. reflexivity. }
+    destruct (IH m n (ns ++ [s]) H1 H2 Hd) as (R1 & R2). split; [exact R1|].
+    rewrite R2, <- app_assoc. reflexivity.
+Qed.
+
+Lemma descend_root_tree root segs n :
+  descend ([], root) segs = Some n ->
+  node_at root (fst n) = Some (snd n) /\ names_at root (fst n) = Some segs.
+Proof. intros H. exact (descend_tree root segs ([], root) n [] eq_refl eq_refl H). Qed.
+
+Lemma pos_eqb_eq a b : pos_eqb a b = true <-> a = b.
+Proof.
+  revert b. induction a as [|x a IH]; destruct b as [|y b]; simpl; try (split; congruence).
+  rewrite andb_true_iff, Nat.eqb_eq, IH. split; [intros [-> ->]; reflexivity|intros H; injection H; auto].
+Qed.
+
+Lemma pos_prefixb_spec a b : pos_prefixb a b = true <-> exists s, b = a ++ s.
+Proof.
+  revert b. induction a as [|x a IH]; intros b; simpl.
+  - split; eauto.
+  - destruct b as [|y b]; [split; [discriminate|intros [s H]; discriminate]|].
+    rewrite andb_true_iff, Nat.eqb_eq, IH. split.
+    + intros [-> [s ->]]. eauto.
+    + intros [s H]. injection H as -> ->. eauto.
+Qed.
+
+(* ------------------------------------------------------------------ admissible names *)
+Lemma admissible_spec s : admissible s = true ->
+  normal_seg s /\ spec_is_selector s = false /\ forallb valid_scalar s = true.
+Proof.
+  unfold admissible. rewrite !andb_true_iff, negb_true_iff. intros [[H1 H2] H3].
+  apply normal_segb_spec in H1. auto.
+Qed.
+
+Definition plain (segs : list text) : Prop := forallb admissible segs = true.
+
+Lemma plain_normal segs : plain segs -> Forall normal_seg segs.
+Proof.
+  unfold plain. rewrite forallb_forall. intros H. apply Forall_forall. intros s Hs.
+  apply (admissible_spec s (H s Hs)).
+Qed.
+Lemma plain_valid segs : plain segs -> Forall (fun s => forallb valid_scalar s = true) segs.
+Proof.
+  unfold plain. rewrite forallb_forall. intros H. apply Forall_forall. intros s Hs.
+  apply (admissible_spec s (H s Hs)).
+Qed.
+Lemma plain_no_selector segs : plain segs -> no_selector segs = true.
+Proof.
+  unfold plain, no_selector. rewrite !forallb_forall. intros H s Hs.
+  destruct (admissible_spec s (H s Hs)) as (_ & -> & _). reflexivity.
+Qed.
+Lemma plain_app a b : plain (a ++ b) <-> plain a /\ plain b.
+Proof. unfold plain. rewrite forallb_app, andb_true_iff. tauto. Qed.
+Lemma plain_firstn n l : plain l -> plain (firstn n l).
+Proof. intros H. rewrite <- (firstn_skipn n l) in H. apply plain_app in H. tauto. Qed.
+Lemma plain_skipn n l : plain l -> plain (skipn n l).
+Proof. intros H. rewrite <- (firstn_skipn n l) in H. apply plain_app in H. tauto. Qed.
+
+(* ------------------------------------------------------------------ the traverser on a decoded path *)
+Lemma traverser_on_path ob pi p vr vt :
+  decode_path_info pi = Ok p -> vroot_tuple_of (mkReq (Some pi) None vr) = Ok vt ->
+  traverser_call ob (mkReq (Some pi) None vr) = Ok (model_outcome ob vt (split_path_info p) []).
+Proof.
+  intros Hd Hv. rewrite traverser_call_outcome. unfold traverser_gen.
+  fold (vroot_tuple_of (mkReq (Some pi) None vr)). rewrite Hv.
+  unfold path_and_subpath. cbn [q_matchdict q_path_info]. rewrite Hd. cbn [as_url_decode_error rbind].
+  destruct p; reflexivity.
+Qed.
+
+Lemma outcome_found ob vt ps sub n :
+  descend ob (vt ++ ps) = Some n -> no_selector (vt ++ ps) = true ->
+  t_context (model_outcome ob vt ps sub) = fst n /\ t_view_name (model_outcome ob vt ps sub) = [].
+Proof.
+  intros Hd Hs.
+  assert (Ho : walk_outcome ob (vt ++ ps) n (vt ++ ps) []).
+  { repeat split; auto. rewrite app_nil_r. reflexivity. }
+  destruct (spec_outcome_walk ob vt ps sub) as (ctx & c & r & Ho' & Hf). cbv zeta in Hf.
+  destruct Hf as (F1 & _ & F3 & _).
+  pose proof (walk_outcome_unique _ _ _ _ _ _ _ _ Ho Ho') as E. injection E as <- <- <-.
+  destruct (model_outcome_fields ob vt ps sub) as (M1 & M2 & _). cbv zeta in M1, M2.
+  rewrite M1, M2, F1, F3. auto.
+Qed.
+
+Lemma outcome_missing ob ps sub :
+  descend ob ps = None -> no_selector ps = true -> Forall (fun s => s <> []) ps ->
+  t_view_name (model_outcome ob [] ps sub) <> [].
+Proof.
+  intros Hd Hs Hne.
+  destruct (spec_outcome_walk ob [] ps sub) as (ctx & c & r & Ho & Hf). cbv zeta in Hf.
+  destruct Hf as (_ & _ & F3 & _).
+  destruct (model_outcome_fields ob [] ps sub) as (_ & M2 & _). cbv zeta in M2. rewrite M2, F3.
+  destruct Ho as (H1 & H2 & _ & _). simpl in H1.
+  destruct r as [|s r'].
+  - rewrite app_nil_r in H1. subst c. congruence.
+  - unfold view_name_of.
+    assert (Hin : In s ps) by (rewrite H1; apply in_or_app; right; left; reflexivity).
+    unfold no_selector in Hs. rewrite forallb_forall in Hs. specialize (Hs s Hin).
+    apply negb_true_iff in Hs. rewrite Hs. rewrite Forall_forall in Hne. exact (Hne s Hin).
+Qed.
+
+Lemma plain_nonempty segs : plain segs -> Forall (fun s => s <> []) segs.
+Proof. intros H. eapply Forall_impl; [|apply plain_normal; exact H]. intros a (Ha & _). exact Ha. Qed.
+
+(* the answer of find_resource once PATH_INFO decodes to plain segments *)
+Definition lookup_result (ob : rnode) (segs : list text) : found :=
+  match descend ob segs with Some n => FoundAt (fst n) | None => KeyErr end.
+
+Lemma find_on_path ob pi p segs :
+  decode_path_info pi = Ok p -> split_path_info p = segs -> plain segs ->
+  xbind (lift (traverser_call ob (mkReq (Some pi) None None)))
+        (fun d => Val (match t_view_name d with [] => FoundAt (t_context d) | _ => KeyErr end))
+  = Val (lookup_result ob segs).
+Proof.
+  intros Hd Hs Hp. rewrite (traverser_on_path ob pi p None []) by (assumption || reflexivity).
+  rewrite Hs. cbn [lift xbind]. unfold lookup_result. f_equal.
+  destruct (descend ob segs) as [n|] eqn:E.
+  - destruct (outcome_found ob [] segs [] n E (plain_no_selector _ Hp)) as (-> & ->). reflexivity.
+  - pose proof (outcome_missing ob segs [] E (plain_no_selector _ Hp) (plain_nonempty _ Hp)) as H.
+    destruct (t_view_name _); [contradiction|reflexivity].
+Qed.
+
+(* ------------------------------------------------------------------ _join_path_tuple *)
+Lemma rmap_quote segs : Forall (fun s => forallb valid_scalar s = true) segs ->
+  rmap quote_path_segment segs = Ok (map q segs).
+Proof.
+  intros Hf. induction Hf as [|x r Hx _ IH]; [reflexivity|].
+  simpl. unfold quote_path_segment at 1. rewrite Hx. cbn [rbind]. rewrite IH. reflexivity.
+Qed.
+
+Lemma q_nonempty s : s <> [] -> q s <> [].
+Proof.
+  destruct s as [|c s]; [congruence|]. intros _. unfold q, Utf8.encode, Percent.quote. simpl flat_map.
+  unfold encode1. destruct (c <? 128)%N; [|destruct (c <? 2048)%N; [|destruct (c <? 65536)%N]];
+    simpl; unfold quote1; match goal with |- context [is_safe ?a ?b] => destruct (is_safe a b) end; discriminate.
+Qed.
+
+Lemma qpath_cons_nonempty s r : s <> [] -> qpath (s :: r) <> [].
+Proof.
+  intros H. unfold qpath. simpl map. pose proof (q_nonempty s H) as Hq.
+  destruct r; simpl; destruct (q s); try congruence; discriminate.
+Qed.
+
+(* an absolute tuple ('', n1, ..., nk) *)
+Lemma jpt_abs segs : Forall (fun s => forallb valid_scalar s = true) segs ->
+  join_path_tuple ([] :: segs) = Ok (slash :: qpath segs).
+Proof.
+  intros Hf. unfold join_path_tuple. simpl rmap. unfold quote_path_segment at 1. simpl forallb. cbn [rbind].
+  rewrite rmap_quote by assumption. cbn [rbind]. unfold qpath.
+  destruct segs as [|x r]; [reflexivity|]. reflexivity.
+Qed.
+
+(* a relative tuple (n1, ..., nk), k >= 1, first name non-empty *)
+Lemma jpt_rel s r : Forall (fun s => forallb valid_scalar s = true) (s :: r) -> s <> [] ->
+  join_path_tuple (s :: r) = Ok (qpath (s :: r)).
+Proof.
+  intros Hf Hs. unfold join_path_tuple. rewrite rmap_quote by assumption. cbn [rbind].
+  change (join slash_text (map q (s :: r))) with (qpath (s :: r)). pose proof (qpath_cons_nonempty s r Hs) as H.
+  destruct (qpath (s :: r)); [congruence|reflexivity].
+Qed.
+
+Lemma is_ascii_qpath segs : Forall (fun s => forallb valid_scalar s = true) segs -> is_ascii (qpath segs) = true.
+Proof. intros H. unfold is_ascii. apply (qpath_ascii segs H). Qed.
+
+Lemma qpath_head s r : forallb valid_scalar s = true -> s <> [] ->
+  exists c t, qpath (s :: r) = c :: t /\ c <> slash.
+Proof.
+  intros Hv Hs. pose proof (q_nonempty s Hs) as Hq. destruct (q s) as [|c t] eqn:E; [congruence|].
+  assert (Hc : c <> slash).
+  { intros ->. apply (q_no slash s Hv); [apply safe_facts|discriminate|reflexivity|rewrite E; left; reflexivity]. }
+  unfold qpath. simpl map. rewrite E. destruct r; simpl; eauto.
+Qed.
+
+(* ------------------------------------------------------------------ traverse / find_resource *)
+Lemma blank_plain path : has_scheme path = false -> ~ In question path ->
+  blank_path_info path = Val (webob_unquote path).
+Proof.
+  intros H1 H2. unfold blank_path_info. rewrite H1. rewrite split_on_nosep_id by assumption. reflexivity.
+Qed.
+
+Lemma has_scheme_slash t : has_scheme (slash :: t) = false.
+Proof. reflexivity. Qed.
+
+(* absolute lookup of plain segments: the start resource is irrelevant *)
+Theorem find_abs_tuple root start segs : plain segs ->
+  find7 root start (PTuple ([] :: segs)) = Val (lookup_result ([], root) segs).
+Proof.
+  intros Hp. pose proof (plain_valid _ Hp) as Hv.
+  unfold find7, traverse7. rewrite jpt_abs by assumption. cbn [lift xbind].
+  assert (Ha : is_ascii (slash :: qpath segs) = true) by (simpl; rewrite is_ascii_qpath by assumption; reflexivity).
+  rewrite Ha. cbn [negb]. rewrite N.eqb_refl. cbn [xbind].
+  rewrite blank_plain.
+  2:{ apply has_scheme_slash. }
+  2:{ intros [H|H]; [discriminate|]. exact (qpath_no_question segs Hv H). }
+  cbn [xbind]. rewrite wu_cons by (unfold slash; lia).
+  rewrite <- (app_nil_r (qpath segs)), wu_qpath by (auto). rewrite wu_nil, app_nil_r.
+  change (slash :: join [slash] (map encode segs)) with (slash :: join [slash] (map encode segs)).
+  pose proof (wire_path_decode segs false Hv) as Hd. unfold wire_path in Hd. rewrite app_nil_r in Hd.
+  apply (find_on_path ([], root) _ _ segs Hd); [|assumption].
+  apply text_path_split. apply plain_normal. assumption.
+Qed.
+
+Lemma decode_join segs : Forall (fun s => forallb valid_scalar s = true) segs ->
+  decode_path_info (join [slash] (map encode segs)) = Ok (join [slash] segs).
+Proof. intros H. rewrite join_encode. apply decode_path_info_encode. apply join_valid. assumption. Qed.
+
+(* relative lookup of plain segments from the resource at [a] -- as long as
+   webob does not take the text for a URL *)
+Theorem find_rel_tuple root a na segs : plain segs -> node_at root a = Some na ->
+  has_scheme (qpath segs) = false ->
+  find7 root a (PTuple segs) = Val (lookup_result (a, na) segs).
+Proof.
+  intros Hp Hn Hs. pose proof (plain_valid _ Hp) as Hv.
+  destruct segs as [|s r].
+  - unfold find7, traverse7. cbn [xbind is_ascii forallb negb]. rewrite Hn. cbn [xbind].
+    unfold blank_path_info. cbn [has_scheme has_scheme_from split_on hd]. cbn [xbind].
+    apply (find_on_path (a, na) [] [] []); reflexivity.
+  - assert (Hne : s <> []).
+    { pose proof (plain_nonempty _ Hp) as H. inversion H. assumption. }
+    unfold find7, traverse7. rewrite jpt_rel by assumption. cbn [lift xbind].
+    rewrite is_ascii_qpath by assumption. cbn [negb].
+    assert (Hsv : forallb valid_scalar s = true) by (inversion Hv; assumption).
+    destruct (qpath_head s r Hsv Hne) as (c & t & Hq & Hc).
+    rewrite Hq. destruct (N.eqb_spec c slash) as [->|_]; [congruence|]. rewrite <- Hq.
+    rewrite Hn. cbn [xbind].
+    rewrite blank_plain by (assumption || apply qpath_no_question; assumption). cbn [xbind].
+    rewrite <- (app_nil_r (qpath (s :: r))) at 1. rewrite wu_qpath by auto. rewrite wu_nil, app_nil_r.
+    apply (find_on_path (a, na) _ _ (s :: r) (decode_join _ Hv)); [|assumption].
+    apply spi_normal_id. apply plain_normal. assumption.
+Qed.
+
+(* the string forms: traverse joins a tuple and then treats it like a string *)
+Lemma find_str_of_tuple root a l s : l <> [] -> join_path_tuple l = Ok s ->
+  find7 root a (PStr s) = find7 root a (PTuple l).
+Proof.
+  intros Hl Hj. unfold find7, traverse7. destruct l as [|x l]; [congruence|]. rewrite Hj. reflexivity.
+Qed.
+
+(* ------------------------------------------------------------------ the property's lookups *)
+Lemma good_resource_spec root r names : good_resource root r = Some names ->
+  names_at root r = Some names /\ plain names /\
+  exists x, descend ([], root) names = Some (r, x) /\ node_at root r = Some x.
+Proof.
+  unfold good_resource. destruct (names_at root r) as [ns|] eqn:E; [|discriminate].
+  destruct (forallb admissible ns) eqn:Ha; [|discriminate]. unfold reachable.
+  destruct (descend ([], root) ns) as [[p x]|] eqn:Hd; [|discriminate]. simpl.
+  destruct (pos_eqb p r) eqn:Hp; [|discriminate]. apply pos_eqb_eq in Hp. subst p.
+  intros H. injection H as <-. repeat split; auto. exists x. split; [exact Hd|].
+  exact (proj1 (descend_root_tree root ns (r, x) Hd)).
+Qed.
+
+Lemma name_or_default_id n : name_or_default n = n.
+Proof. unfold name_or_default. rewrite f_default. destruct n; reflexivity. Qed.
+
+Lemma path_list_eq names els : resource_path_list names els = ([] :: names) ++ els.
+Proof.
+  unfold resource_path_list. rewrite name_or_default_id. f_equal. f_equal.
+  induction names as [|n l IH]; [reflexivity|]. simpl. rewrite name_or_default_id, IH. reflexivity.
+Qed.
+
+(* find_path_tuple: the path tuple of a resource resolves back to it, from any start *)
+Theorem find_path_tuple root r a names : good_resource root r = Some names ->
+  xbind (resource_path_tuple root r []) (fun t => find7 root a (PTuple t)) = Val (FoundAt r).
+Proof.
+  intros Hg. destruct (good_resource_spec _ _ _ Hg) as (Hn & Hp & x & Hd & _).
+  unfold resource_path_tuple, names_of. rewrite Hn. cbn [xbind]. rewrite path_list_eq, app_nil_r.
+  rewrite find_abs_tuple by assumption. unfold lookup_result. rewrite Hd. reflexivity.
+Qed.
+
+(* find_path_string: so does the path string *)
+Theorem find_path_string root r a names : good_resource root r = Some names ->
+  xbind (resource_path root r []) (fun s => find7 root a (PStr s)) = Val (FoundAt r).
+Proof.
+  intros Hg. pose proof (find_path_tuple root r a names Hg) as H.
+  destruct (good_resource_spec _ _ _ Hg) as (Hn & Hp & _).
+  unfold resource_path. unfold resource_path_tuple, names_of in *. rewrite Hn in *. cbn [xbind] in *.
+  rewrite path_list_eq, app_nil_r in *. rewrite jpt_abs by (apply plain_valid; assumption). cbn [lift xbind].
+  rewrite (find_str_of_tuple root a ([] :: names)); [exact H|discriminate|].
+  apply jpt_abs. apply plain_valid. assumption.
+Qed.
+
+(* relative and absolute lookups agree and are the item lookup from [a]: a
+   missing name (or a resource without items) is a KeyError *)
+Theorem relative_absolute_agree_partial root a r names_a rel :
+  good_resource root a = Some names_a -> plain rel -> has_scheme (qpath rel) = false ->
+  exists f, spec_lookup root a rel = Some f /\
+    find7 root a (PTuple rel) = Val f /\
+    xbind (resource_path_tuple root a rel) (fun t => find7 root r (PTuple t)) = Val f.
+Proof.
+  intros Hg Hp Hs. destruct (good_resource_spec _ _ _ Hg) as (Hn & Hpa & x & Hd & Hx).
+  unfold spec_lookup. rewrite Hx. eexists. split; [reflexivity|]. split.
+  - rewrite (find_rel_tuple root a x rel Hp Hx Hs). reflexivity.
+  - unfold resource_path_tuple, names_of. rewrite Hn. cbn [xbind]. rewrite path_list_eq.
+    change (([] :: names_a) ++ rel) with ([] :: (names_a ++ rel)).
+    rewrite find_abs_tuple by (apply plain_app; auto).
+    unfold lookup_result. rewrite descend_app, Hd. reflexivity.
+Qed.
+
+(* the absolute form needs no side condition *)
+Theorem absolute_lookup root a r names_a rel :
+  good_resource root a = Some names_a -> plain rel ->
+  exists f, spec_lookup root a rel = Some f /\
+    xbind (resource_path_tuple root a rel) (fun t => find7 root r (PTuple t)) = Val f.
+Proof.
+  intros Hg Hp. destruct (good_resource_spec _ _ _ Hg) as (Hn & Hpa & x & Hd & Hx).
+  unfold spec_lookup. rewrite Hx. eexists. split; [reflexivity|].
+  unfold resource_path_tuple, names_of. rewrite Hn. cbn [xbind]. rewrite path_list_eq.
+  change (([] :: names_a) ++ rel) with ([] :: (names_a ++ rel)).
+  rewrite find_abs_tuple by (apply plain_app; auto).
+  unfold lookup_result. rewrite descend_app, Hd. reflexivity.
+Qed.
+
+(* find_missing *)
+Theorem find_missing root a names_a rel x :
+  good_resource root a = Some names_a -> plain rel -> has_scheme (qpath rel) = false ->
+  node_at root a = Some x -> descend (a, x) rel = None ->
+  find7 root a (PTuple rel) = Val KeyErr /\
+  xbind (resource_path_tuple root a rel) (fun t => find7 root a (PTuple t)) = Val KeyErr.
+Proof.
+  intros Hg Hp Hs Hx Hd.
+  destruct (relative_absolute_agree_partial root a a names_a rel Hg Hp Hs) as (f & Hf & H1 & H2).
+  unfold spec_lookup in Hf. rewrite Hx, Hd in Hf. injection Hf as <-. auto.
+Qed.
